@@ -110,10 +110,16 @@ package threshold
 //@     assert [unchanged]         fm == m && ff == from
 //@
 //@ func (*threadSafeRBC).Receive
-//@   props C02 C10
+//@   props C02 C10 C20
 //@   on-call r.h(fm, ff):
 //@     assert [one-at-a-time] held(r.lock)
 //@     assert [unchanged]     fm == m && ff == from
+//@
+//@ // the synchroniser of a session handles one message at a time (its own state is not synchronised otherwise)
+//@ func (*threadSafeSync).HandleMessage
+//@   props C10 C20
+//@   on-call s.Synchronizer.HandleMessage(ff, mm):
+//@     assert [one-at-a-time] held(s.lock)
 //@
 //@ func (*Scheme).handleRBC
 //@   props C02 C03 C10
